@@ -400,6 +400,10 @@ func (a Aux) Kind() byte { return auxKind[a[2]] }
 
 // Value returns v containing the value of the auxiliary tag.
 func (a Aux) Value() interface{} {
+	if len(a) < 3 {
+		// The nil Aux that AuxFields.Get returns for an absent tag.
+		return nil
+	}
 	switch t := a.Type(); t {
 	case 'A':
 		return a[3]
